@@ -742,6 +742,7 @@ C10.components_stub = ["threading primitives -> dsim", "OS scheduler -> seeded b
 C10.assumptions = ["the terminal behaves like the VT-subset model (LF implies CR, deferred wrap, cursor-up clamps at the window top)",
                    "blank rows are ignored when screens are compared (Progress pads frames to the tallest height seen)",
                    "expected rows come from pristine renders by rich itself: layout is trusted, cursor control / ordering is not",
+                   "known findings: C10-F3 (transient and last frame >= screen height), C10-F4 (Progress and a frame or its padded height > screen height), C10-F6 (failing write in a critical span that overlaps the refresh thread AND one side is a print/log); each suppresses only violations for which its predicate holds",
                    "Status: the spinner glyph is time dependent and compared as a wildcard cell",
                    "resize, Jupyter, legacy Windows and dumb terminals are not simulated"]
 CHECK = C10()
